@@ -14,9 +14,11 @@ import (
 	"bytes"
 	"fmt"
 	"io"
+	"mime/multipart"
 	"net"
 	"net/http"
 	"net/http/httptest"
+	"net/textproto"
 	"os"
 	"os/exec"
 	"path/filepath"
@@ -219,7 +221,7 @@ func mutateTiles(r *core.Rng, a []c20Tile, maxLen int) ([]c20Tile, string) {
 }
 
 func (C20) Gen(r *core.Rng, tier string, emit func(string)) {
-	nSync, nMk, nFault, nSmall := 70, 30, 50, 60
+	nSync, nMk, nFault, nSmall := 70, 30, 90, 60
 	if tier == "thorough" {
 		nSync, nMk, nFault, nSmall = 3000, 600, 2000, 1500
 	}
@@ -256,7 +258,11 @@ func (C20) Gen(r *core.Rng, tier string, emit func(string)) {
 				kind = "unrelated"
 			}
 		}
-		return arch(ta), arch(tb), kind
+		a := arch(ta)
+		if kind == "same" {
+			return a, a, kind // the very same file: nothing may be downloaded
+		}
+		return a, arch(tb), kind
 	}
 	// Makesync alone
 	for i := 0; i < nMk; i++ {
@@ -297,14 +303,19 @@ func (C20) Gen(r *core.Rng, tier string, emit func(string)) {
 		emit(fmt.Sprintf("sync 1 0 - %s %s # small:%s", hexs(arch(ta)), hexs(arch(tb)), kind))
 	}
 	// misbehaving origin
-	faults := []string{"drop", "s500", "norange", "short", "s404", "tiny"}
+	faults := []string{"drop", "s500", "norange", "short", "s404", "tiny", "fewparts", "fewparts"}
 	for i := 0; i < nFault; i++ {
 		a, b, kind := pair()
 		dry := 0
 		if r.Chance(1, 10) {
 			dry = 1
 		}
-		emit(fmt.Sprintf("sync %d %d %s:%d %s %s # %s", 1+r.Intn(3), dry, faults[r.Intn(len(faults))], []int{0, 0, 1, 2, 3, 4, 5, 5, 6, 7}[r.Intn(10)], hexs(a), hexs(b), kind))
+		fk := faults[r.Intn(len(faults))]
+		fi := []int{0, 0, 1, 2, 3, 4, 5, 5, 6, 7}[r.Intn(10)]
+		if fk == "fewparts" && r.Chance(3, 4) {
+			fi = 4 + r.Intn(2) // the request for the tile ranges (after .sync, HEAD, first 16 KiB, metadata[, leaves])
+		}
+		emit(fmt.Sprintf("sync %d %d %s:%d %s %s # %s", 1+r.Intn(3), dry, fk, fi, hexs(a), hexs(b), kind))
 	}
 	// Range batching and block (de)serialisation
 	nAux := 60
@@ -389,6 +400,26 @@ func (o *c20Origin) ServeHTTP(w http.ResponseWriter, r *http.Request) {
 			return
 		case "norange":
 			r.Header.Del("Range")
+		case "fewparts":
+			// a well-formed multipart answer that holds only the first half of the requested ranges (an origin or CDN capping ranges)
+			rs := strings.Split(strings.TrimPrefix(r.Header.Get("Range"), "bytes="), ",")
+			if len(rs) >= 2 {
+				mw := multipart.NewWriter(w)
+				w.Header().Set("Content-Type", "multipart/byteranges; boundary="+mw.Boundary())
+				w.WriteHeader(206)
+				for _, one := range rs[:(len(rs)+1)/2] {
+					ab := strings.Split(strings.TrimSpace(one), "-")
+					a, _ := strconv.Atoi(ab[0])
+					b, _ := strconv.Atoi(ab[1])
+					if a < 0 || b >= len(data) || a > b {
+						continue
+					}
+					pw, _ := mw.CreatePart(textproto.MIMEHeader{"Content-Range": {fmt.Sprintf("bytes %d-%d/%d", a, b, len(data))}, "Content-Type": {"application/octet-stream"}})
+					pw.Write(data[a : b+1])
+				}
+				mw.Close()
+				return
+			}
 		case "short", "tiny":
 			if hj, ok := w.(http.Hijacker); ok && r.Method != "HEAD" {
 				// a well-formed response head announcing the right length, then half the body
